@@ -37,15 +37,15 @@ TALLY = (f'Final state (official runs against `/repo` HEAD with the final checks
          f'{_ms} missed. Four delivered changes were neutralised by later repairs and are kept aside in `/verif/seeded_superseded/`.')
 text = f"""## 8. Seeded changes: which checks catch which changes
 
-Two rounds. In each, for every property an independent sub-agent, given ONLY the text of the property and a scratch worktree of
+Three rounds (the third for ten properties, two changes each). In each, for every property an independent sub-agent, given ONLY the text of the property and a scratch worktree of
 `/repo` (nothing from `/verif`; in round 2 also the one-line titles of the round-1 changes, to avoid repeats), wrote three changes
 that break the property while the whole existing suite (476 tests) still passes, each with a demonstration program (`demo.py`:
 exit 0 on the unchanged tree, exit 1 with the change). A change is kept under `/verif/seeded/<id>/<name>/` (`patch.diff`,
-`demo.py`, `meta.json`; `m*` = round 1, `n*` = round 2) only after the lead confirmed all of that in a scratch worktree
+`demo.py`, `meta.json`; `m*` = round 1, `n*` = round 2, `p*` = round 3) only after the lead confirmed all of that in a scratch worktree
 (`tools/confirm_seeded.sh`; `meta.json: confirmed_by_lead`). `detected.json` records what the registered checks print when the
 patch is applied to `/repo` itself (`tools/seeded_run.sh`: apply, `./check <id> --tier quick`, undo straight away): return code,
 number of VIOLATION lines, whether a concrete input was found, the first witnesses, and which proof obligation / tie broke as well.
-Three round-1 patches were re-based by hand after repairs in `/repo` touched the same lines (`patch.orig.diff` keeps the original).
+Five patches were re-based by hand after repairs in `/repo` touched the same lines (`patch.orig.diff` keeps the original).
 
 Checks were strengthened where a first trial missed a change (trial = `tools/try_seeded.sh`, same run against a scratch worktree
 through the `VERIF_REPO` test hook). Round 1: C01 gained `history_shared` (sibling evaluation between two evaluations of a prepared
@@ -65,7 +65,14 @@ shared draws / Derive / MonteCarlo / Integrate node; C11 boundary sizes of the H
 evaluation histories and draw-type clashes across formulas; C14 histories on one Parameters object; C15 non-ASCII names in a C
 locale, scaled evaluations, bootstrap loops left by an exception; C16 histories where catalogs are created after controllers moved;
 C17 sigma of both signs; C18 both signs of the dual variable; C19 alternatives tables with permuted row labels. The second round
-also surfaced twelve genuine defects of the unchanged tree, all repaired (section 4).
+also surfaced twelve genuine defects of the unchanged tree, all repaired (section 4). Round 3 (14 of 20 changes missed or
+half-caught at first, all caught after strengthening): the same theme once more, HISTORIES on one object that nobody had yet
+tried: nest objects and utility dictionaries re-used and updated in place between model calls (C05, C06), results kept from an
+earlier evaluation (C04), a bootstrap left by an exception (C07), a model built before its table changed (C09), configurations
+selected one after the other on one expression (C12), a check point put back or a model renamed between runs (C15), catalogs on a
+shared controller in another order and alternatives whose top node is MonteCarlo (C16), identifiers stored once with the shared
+object two levels below the root (C01). It surfaced five more defects of the unchanged tree; three are repaired, two (C04: the
+engine is not fed again when the thread count changes behind its back) are open known findings.
 
 {TALLY}
 
